@@ -12,6 +12,7 @@ import (
 	"fmt"
 	"strings"
 	"sync/atomic"
+	"time"
 
 	"golang.org/x/crypto/chacha20"
 	"verif/ref/chacharef"
@@ -89,7 +90,9 @@ func run(c *vf.Ctx) {
 	c.Rule(fmt.Sprintf("BFS over all operation histories to depth %d with state merging (key = hook triple (counter,buffered,overflow) + precomputation flag + model position) and to depth %d without merging; "+
 		"alphabet: XORKeyStream(n) n in %v, SetCounter(current-1|current|current+1|current+4), SetCounter(2^32-5..2^32-1); start counters {0,1,0x01020304,2^31,2^32-6..2^32-1} x nonce size {12,24} x 2 key classes; "+
 		"every transition compares output bytes with the RFC 8439 block-function model at the absolute position, and panic/no-panic with the model's rollback and 2^32-block rules; "+
-		"non-trivial = distinct states at depth >= 2", depth, flat, xors))
+		"every history is run on TWO fresh Ciphers in lock-step (constructed from private key and nonce copies that are overwritten right after the constructor returned): one with a separate poisoned dst, one IN PLACE (dst == src); src must stay unmodified, and source/destination buffers are overwritten after every step; "+
+		"plus the LONG family (no merging): nonce size {12,24} (quick: one key class each) x L = 2^k+{-1,0,1,63,64,65} for k=6..22 (4 MiB) x start counter {0, 1, 0xFE / 0xFFFE / 0xFFFFFE (L <= 2^16+65: low byte / 16 / 24 counter bits carry inside the call), 2^32-ceil(L/64)-1, 2^32-ceil(L/64) (ends in the last block), 2^32-ceil(L/64)+1 (must panic)} x history {XOR(L); XOR(7),XOR(L); L in chunks of 4093; L in chunks of 65537; XOR(L),XOR(100); XOR(L),SetCounter(current+2),XOR(100)} (quick above 2^18: start counters 0/end/end+1 and four of the histories), alternately separate dst and in place, same model; "+
+		"non-trivial = distinct states at depth >= 2 / distinct long-family cases", depth, flat, xors))
 	c.Assume("after a documented panic the Cipher is not used further (the property does not define its state)")
 	c.Assume("on this platform the key-stream buffer is one block (generic implementation); the hook triple is read verbatim, so merged states have equal futures for a fixed key/nonce")
 	c.Set("buf_size", chacha20.VerifC03BufSize)
@@ -109,6 +112,10 @@ func run(c *vf.Ctx) {
 	}
 	src := c.Bytes("c03-src", 0, 5000)
 	defer flushOutcomes(c)
+
+	tl := time.Now()
+	longFamily(c)
+	c.Set("long_family_seconds", time.Since(tl).Seconds())
 
 	for _, merged := range []bool{true, false} {
 		for _, cf := range cfgs {
@@ -184,21 +191,45 @@ func seq(from, n int) []byte {
 	return b
 }
 
-// runHistory executes hist on a fresh Cipher and on the model.
+// newCipher builds a Cipher from private copies of key and nonce and overwrites both copies as
+// soon as the constructor has returned: the caller owns the slices it passed in.
+func newCipher(key, nonce []byte) (*chacha20.Cipher, error) {
+	k, n := append([]byte(nil), key...), append([]byte(nil), nonce...)
+	ci, err := chacha20.NewUnauthenticatedCipher(k, n)
+	for i := range k {
+		k[i] ^= 0xFF
+	}
+	for i := range n {
+		n[i] ^= 0xFF
+	}
+	return ci, err
+}
+
+// runHistory executes hist on two fresh Ciphers and on the model, in lock-step: object A gets a
+// separate (poisoned) dst, object B works in place (dst == src, "overlap entirely"). Source and
+// destination buffers are private to the call and are overwritten after every step.
 func runHistory(c *vf.Ctx, ks *ksCache, start uint64, hist []op, src []byte, merged bool) (key string, stop bool, mismatch string) {
-	ci, err := chacha20.NewUnauthenticatedCipher(ks.key, ks.nonce)
+	ci, err := newCipher(ks.key, ks.nonce)
+	if err != nil {
+		return "", true, "NewUnauthenticatedCipher rejects a valid key/nonce | " + err.Error()
+	}
+	cb, err := newCipher(ks.key, ks.nonce)
 	if err != nil {
 		return "", true, "NewUnauthenticatedCipher rejects a valid key/nonce | " + err.Error()
 	}
 	pos := uint64(0)
 	if start != 0 {
 		// initial seek (not counted as an operation of the history)
-		if p, v, _ := vf.Protect(func() { ci.SetCounter(uint32(start)) }); p {
-			return "", true, fmt.Sprintf("SetCounter on a fresh Cipher panics | start=%d panic=%v", start, v)
+		for _, x := range []*chacha20.Cipher{ci, cb} {
+			if p, v, _ := vf.Protect(func() { x.SetCounter(uint32(start)) }); p {
+				return "", true, fmt.Sprintf("SetCounter on a fresh Cipher panics | start=%d panic=%v", start, v)
+			}
 		}
 		pos = start * 64
 	}
 	dst := make([]byte, 5000)
+	srcA := make([]byte, 5000)
+	bufB := make([]byte, 5000)
 	for i, o := range hist {
 		cur := (pos + 63) / 64 // blocks already consumed, wholly or partly
 		switch o.kind {
@@ -207,7 +238,13 @@ func runHistory(c *vf.Ctx, ks *ksCache, start uint64, hist []op, src []byte, mer
 			for j := range dst[:o.n] {
 				dst[j] = 0xEE
 			}
-			p, v, _ := vf.Protect(func() { ci.XORKeyStream(dst[:o.n], src[:o.n]) })
+			copy(srcA, src[:o.n])
+			copy(bufB, src[:o.n])
+			p, v, _ := vf.Protect(func() { ci.XORKeyStream(dst[:o.n], srcA[:o.n]) })
+			pb, vb, _ := vf.Protect(func() { cb.XORKeyStream(bufB[:o.n], bufB[:o.n]) })
+			if p == wantPanic && pb != wantPanic {
+				p, v = pb, vb
+			}
 			if p != wantPanic {
 				if p {
 					return "", true, fmt.Sprintf("XORKeyStream panics although 2^32 blocks are not exceeded | step %d pos=%d n=%d panic=%v", i, pos, o.n, v)
@@ -223,6 +260,16 @@ func runHistory(c *vf.Ctx, ks *ksCache, start uint64, hist []op, src []byte, mer
 				if dst[j] != src[j]^k[j] {
 					return "", true, fmt.Sprintf("XORKeyStream output != src XOR RFC 8439 key stream at the absolute position | step %d pos=%d n=%d first differing byte %d", i, pos, o.n, j)
 				}
+				if bufB[j] != src[j]^k[j] {
+					return "", true, fmt.Sprintf("XORKeyStream in place (dst == src) != src XOR RFC 8439 key stream at the absolute position | step %d pos=%d n=%d first differing byte %d", i, pos, o.n, j)
+				}
+				if srcA[j] != src[j] {
+					return "", true, fmt.Sprintf("XORKeyStream modifies src | step %d pos=%d n=%d byte %d", i, pos, o.n, j)
+				}
+			}
+			// the buffers are the caller's again: overwrite them
+			for j := 0; j < o.n; j++ {
+				dst[j], srcA[j], bufB[j] = ^dst[j], ^srcA[j], ^bufB[j]
 			}
 			pos += uint64(o.n)
 			if i == len(hist)-1 {
@@ -250,6 +297,10 @@ func runHistory(c *vf.Ctx, ks *ksCache, start uint64, hist []op, src []byte, mer
 			}
 			wantPanic := target < cur
 			p, v, _ := vf.Protect(func() { ci.SetCounter(uint32(target)) })
+			pb, vb, _ := vf.Protect(func() { cb.SetCounter(uint32(target)) })
+			if p == wantPanic && pb != wantPanic {
+				p, v = pb, vb
+			}
 			if p != wantPanic {
 				if p {
 					return "", true, fmt.Sprintf("SetCounter panics on a forward/equal counter | step %d pos=%d current=%d target=%d panic=%v", i, pos, cur, target, v)
